@@ -18,10 +18,11 @@ import (
 func init() {
 	core.Register(core.Check{ID: "C01", Level: "exploration", Run: func(c *core.Ctx) {
 		again := edFirstUse(c, "C01")
+		waitArch := background(func() { arch386Pass(c, "C01") })
 		runC01(c)
 		historyPass(c, "C01")
 		reentrancyPass(c, "C01")
-		arch386Pass(c, "C01")
+		waitArch()
 		again()
 	}})
 }
